@@ -147,7 +147,7 @@ class C20(core.Check):
             lang = rnd.choice(['en', 'de', 'ru'])
             yield dict(fam='shell', text=gen_text(rnd, 25) + ' ' + gen_eq_text(rnd, self.ph_of(lang)) + '\n',
                        accept=rnd.choice(ACC) + rnd.choice(['', '||']), lang=lang, mode=rnd.choice(['displayed', 'inline', 'all']),
-                       ml=rnd.random() < .3)
+                       ml=rnd.random() < .3, xml=rnd.choice([None, 'xml', 'xml-b', 'xml-b']))
         for i in range(nsh // 2):
             yield dict(fam='shelltex', s=rnd.getrandbits(48), accept=rnd.choice(['', 'A|I', 'a|x', 'I||', 'e.g.|K']))
 
@@ -408,6 +408,45 @@ class C20(core.Check):
             r2['key'] = 'shell:' + r2['key']
             r2['detail']['cmd'] = cmd[2:]
             return r2
+        # the same run in the XML formats (character and byte counts): location and context excerpt of every
+        # message designate the same characters as in the JSON report
+        if case.get('xml'):
+            import xml.etree.ElementTree as ET
+            xmode = case['xml']
+            cmdx = [a if a != 'json' else xmode for a in cmd]
+            prx = subprocess.run(cmdx, capture_output=True, timeout=180, cwd=self.tmp, env=env.child_env())
+            detail = dict(text=t, cmd=cmdx[2:], stderr=prx.stderr.decode('utf-8', 'replace')[-600:])
+            if prx.returncode != 0:
+                return dict(ok=False, nt=True, key='shell:%s:exit%d' % (xmode, prx.returncode), cnt=cnt, obs=None, detail=detail)
+            try:
+                errs = ET.fromstring(prx.stdout.decode('utf-8')).findall('error')
+            except ET.ParseError:
+                errs = None         # characters XML cannot represent: not judged
+                cnt['shell_xml_unreadable'] = 1
+            own = [m for m in ms if m['rule']['id'].startswith('PRIVATE::')]
+            if errs is not None:
+                tt = t if t.endswith('\n') else t + '\n'
+                enc = (lambda s: len(s.encode('utf-8'))) if xmode == 'xml-b' else len
+                want = []
+                for m in sorted(own, key=lambda m: m['offset']):
+                    o, ln = m['offset'], m['length']
+                    nl = tt.rfind('\n', 0, o) + 1
+                    want.append((tt.count('\n', 0, o), enc(tt[nl:o]), tt[o:o + ln]))
+                got = []
+                for e in errs:
+                    if e.get('msg') not in ('Single letter detected.',) and 'punctuation' not in e.get('msg', '').lower():
+                        continue
+                    ctext, coff, clen = e.get('context'), int(e.get('contextoffset')), int(e.get('errorlength'))
+                    if xmode == 'xml-b':
+                        marked = ctext.encode('utf-8')[coff:coff + clen].decode('utf-8', 'replace')
+                    else:
+                        marked = ctext[coff:coff + clen]
+                    got.append((int(e.get('fromy')), int(e.get('fromx')), marked))
+                norm = lambda s: s.replace('\n', ' ').replace('\t', ' ')        # noqa
+                if sorted(got) != sorted((a, b, norm(w)) for a, b, w in want):
+                    detail.update(got=sorted(got), want=sorted(want))
+                    return dict(ok=False, nt=True, key='shell:%s:location-or-context' % xmode, cnt=cnt, obs=None, detail=detail)
+                cnt['shell_xml_messages'] = len(got)
         cnt['shell_runs'] = 1
         return dict(ok=True, nt=bool(ms), key=None, cnt=cnt,
                     obs=dict(text=tex.short(t, 80), single=[m['offset'] for m in single], eq=[m['offset'] for m in eq]))
@@ -415,7 +454,7 @@ class C20(core.Check):
     def quotas(self, tier):
         return {'fam_single': 20000, 'fam_eq': 10000, 'single_messages': 20000, 'single_accepted_letters': 3000,
                 'eq_messages': 1500, 'shell_runs': 200, 'shell_accept_placeholders': 40, 'shelltex_runs': 100,
-                'shelltex_messages_in_later_parts': 100, 'shelltex_repeated_part': 15}
+                'shelltex_messages_in_later_parts': 100, 'shelltex_repeated_part': 15, 'shell_xml_messages': 300}
 
 
 CHECK = C20
